@@ -21,9 +21,9 @@ var starveQuick = map[string][]string{
 	"C08": {""},
 	"C09": {"C09/engine/"},
 	"C10": {"C10/task-race", "C10/sub-race/[I]", "C10/sub-race/[I,N]", "C10/task-burst", "C10/sub-burst/[I,N]", "C10/task-timer", "C10/sub-timer/[I]", "C10/task/[I]/pre=false", "C10/sub/[I]/pre=false", "C10/task/[N]/pre=false"},
-	"C11": {"C11/burst", "C11/arrival", "C11/cancel-race", "C11/one/signal", "C11/behind/signal", "C11/sub-unentered/signal", "C11/same/signal", "C11/operation/message"},
+	"C11": {"C11/burst", "C11/arrival", "C11/cancel-race", "C11/staggered", "C11/one/signal", "C11/behind/signal", "C11/sub-unentered/signal", "C11/same/signal", "C11/operation/message"},
 	"C12": {"short:34", "C12/unjoined/"},
-	"C13": {"C13/process/duration", "C13/process/R2", "C13/two-instances"},
+	"C13": {"C13/process/duration", "C13/process/R2", "C13/two-instances", "C13/staggered"},
 	"C14": {"C14/engine/straight/signal/k2", "C14/engine/loop/signal/k2", "C14/engine/two-tokens/signal/k2", "C14/engine/behind-task/signal/k2"},
 	"C17": {""},
 	"C18": {"waits[0]/"},
